@@ -11,9 +11,11 @@ import contracts.value_iteration as CV
 SA = "mdpax.solvers.semi_async_value_iteration.SemiAsyncValueIteration"
 V0 = z3.Function("V0", I_, R_); NEWF = z3.Function("NEW", I_, R_); PERM = z3.Function("perm", I_, I_); POS = z3.Function("pos", I_, I_)
 # the semi-async class overrides the kernels with identical bodies: same contracts
-for m in ("_get_value_next_state", "_calculate_updated_state_action_value", "_calculate_updated_value", "_calculate_updated_value_state_batch"):
+SACLS = ("SemiAsyncValueIteration", "mdpax.solvers.semi_async_value_iteration")
+for m, st in (("_get_value_next_state", CV.setup_gvns), ("_calculate_updated_state_action_value", CV.setup_sav), ("_calculate_updated_value", CV.setup_uv), ("_calculate_updated_value_state_batch", CV.setup_batch)):
     src = REGISTRY[f"{CV.VI}.{m}"]
-    contract(f"{SA}.{m}", requires=src.requires, returns=src.returns, ensures={}, setup=None)
+    # the overriding bodies are verified against the SAME postconditions as the parent's (own units, see props.py)
+    contract(f"{SA}.{m}", requires=src.requires, returns=src.returns, ensures=dict(src.ensures), setup=(lambda I, st=st: st(I, SACLS)))
 
 
 def sa_config(I, shuffle):
